@@ -112,6 +112,14 @@ class C01(Base):
                 for ready in (False, True):
                     for mode in ("clean", "list", "list_all", "list_json"):
                         yield self.deep_case(depth, closed, ready, mode)
+        # a very long line in front of / behind a listed region, a very long removed region, a very long tag
+        def size_docs(n):
+            return ("a" * n + "<rm name='a'>x</rm>\n", "a\n<rm name='a'>\n" + "x" * n + "\n</rm>\n" + "b" * 10 + "\n", "<rm name='a' c='" + "v" * n + "'>x</rm>")
+        picks = [(1024, 0), (1024, 1), (1024, 2), (66000, 0)] if tier == "quick" else [(n, k) for n in (1024, 65535, 65536, 70000) for k in (0, 1, 2)]
+        for n, k in picks:
+            d = size_docs(n)[k]
+            yield Case("sizes", [req(op, d, "<", ">", proto.DEFAULT_CFG) for op in ("clean", "list:pretty", "list:json")] + [req("tokenize", d, "<", ">", proto.DEFAULT_CFG)],
+                       self.replay_meta(d, "<", ">", proto.DEFAULT_CFG), key=(d[:50], len(d)))
         # unusual but legal configuration values on small documents: offsets that are empty, blank, begin with a
         # character outside ASCII or are otherwise not `+hh:mm`; tag names that are empty, blank or hold blanks;
         # the empty target name; documents of one or two bytes and documents that are only a tag
@@ -404,6 +412,15 @@ class C04(C02):
             else:
                 d = d.replace(" to=", " to" + w + "=").replace(" name=", " name" + w + "=").replace(" to =", " to" + w + "=").replace(" name =", " name" + w + "=")
             yield self.mk(d, "<", ">", proto.DEFAULT_CFG, "odd-blank-in-tag")
+        # a quoted value directly followed by a quote or by `=`: the tag is malformed, so nothing is ready
+        for tail in ["'", '"', "=", "='x'", "''", "'x", '"x"', "=2999-01-01 00:00:00"]:
+            for q in ("'", '"'):
+                for cond in ("to=%s%s%s" % (q, gen.READY_T, q), "name=%sa%s" % (q, q)):
+                    tag = "tl" if cond.startswith("to") else "rm"
+                    d = "a\n<%s %s%s>\nb\n</%s>\nc\n" % (tag, cond, tail, tag)
+                    yield self.mk(d, "<", ">", proto.DEFAULT_CFG, "quote-adjacent")
+                    d2 = "a\n<%s c=%sv%s%s %s>\nb\n</%s>\nc\n" % (tag, q, q, tail, cond, tag)
+                    yield self.mk(d2, "<", ">", proto.DEFAULT_CFG, "quote-adjacent")
         # unwrap-blocks that cannot be unwrapped
         for body in itertools.product(["", "x", "  y"], repeat=1):
             for k in (0, 1):
@@ -748,6 +765,20 @@ class C07(Base):
         for ds, de in gen.DELIMS:
             for s in gen.g_atoms_random(rng, ds, de, quick(tier, 400, 15000), maxlen=40):
                 yield self.mk(s, ds, de, label="atoms-random")
+        yield from self.size_cases(tier)
+
+    def size_cases(self, tier="quick"):
+        """long ASCII stretches in front of the first multi-byte character, very long tags, very long texts: no decision may
+        be taken from a prefix of fixed size, no length may be kept in a small integer"""
+        for n in quick(tier, (256, 1024, 4096, 4097, 65536), (255, 256, 1023, 1024, 4095, 4096, 4097, 65535, 65536, 70001)):
+            for ds, de in (("<", ">"), ("<!-- <", "> -->")):
+                yield self.mk("x" * n + "é", ds, de, label="sizes")
+                yield self.mk("x" * n + ds + "a" + de + "é" + ds + "/a" + de + "𝄞z", ds, de, label="sizes")
+                yield self.mk("é" + "x" * n + ds + "a" + de, ds, de, label="sizes")
+        for n in (254, 255, 256, 257, 300, 1100, 5000):
+            for ds, de in (("<", ">"), ("<!-- <", "> -->"), ("[[", "]]")):
+                yield self.mk("a" + ds + "t c='" + "v" * n + "'" + de + "b" + ds + "/t" + de + "c", ds, de, label="sizes")
+                yield self.mk(ds + "y" * n + de, ds, de, label="sizes")
 
     def spec_reqs(self, case, impl):
         k, v = parse_reply(impl[0])
@@ -806,6 +837,7 @@ class C08(C07):
         n = quick(tier, 600, 20000)
         for d, ds, de in doc_stream(rng, tier, n, n, 0, 0, delims=self.pairs):
             yield self.mk(d, ds, de, label="doc")
+        yield from self.size_cases(tier)
 
     def spec_reqs(self, case, impl):
         rs = super().spec_reqs(case, impl)
